@@ -9,7 +9,9 @@ use radix_transactions::manifest::compiler::*;
 use radix_transactions::manifest::lexer::{tokenize, ExpectedChar, LexerError, LexerErrorKind};
 use radix_transactions::manifest::token::Token;
 use radix_transactions::manifest::parser::{Parser, ParserErrorKind, PARSER_MAX_DEPTH};
+use radix_transactions::manifest::token::Span;
 use radix_transactions::manifest::*;
+use radix_transactions::validation::{BasicManifestValidator, ProofKind};
 use serde_json::json;
 use vh_common::*;
 
@@ -123,6 +125,96 @@ fn gen_string_literal(rng: &mut Rng) -> String {
 
 
 // ---- deterministic boundary families (identical for every seed) ---------------------------------------------
+
+/// the rendered PlainText diagnostics parsed back: (first displayed line number, displayed source lines, caret)
+/// caret = (line number above the caret line, column, number of carets); None when the output has another shape
+fn parse_rendered(d: &str) -> Option<(u64, Vec<String>, Option<(u64, u64, u64)>)> {
+    let lines: Vec<&str> = d.split('\n').collect();
+    let last = lines.iter().rposition(|l| !l.is_empty())?;
+    let gutter = lines[last];
+    if !gutter.ends_with(" |") || !gutter[..gutter.len() - 2].chars().all(|c| c == ' ') { return None; }
+    let w = gutter.len() - 2;
+    let i0 = lines.iter().position(|l| *l == gutter)?;
+    if i0 >= last { return None; }
+    let (mut first, mut shown, mut caret, mut cur) = (None, vec![], None, 0u64);
+    for l in &lines[i0 + 1..last] {
+        if l.starts_with(gutter) {
+            let c: Vec<char> = l[gutter.len()..].chars().collect();
+            if c.first() != Some(&' ') { return None; }
+            let sp = c[1..].iter().take_while(|x| **x == ' ').count();
+            let n = c[1 + sp..].iter().take_while(|x| **x == '^').count();
+            if n == 0 || caret.is_some() { return None; }
+            caret = Some((cur, sp as u64, n as u64));
+        } else {
+            if l.len() < w + 2 || !l.is_char_boundary(w) || !l.is_char_boundary(w + 2) || &l[w..w + 2] != " |" { return None; }
+            let n: u64 = l[..w].trim().parse().ok()?;
+            if first.is_none() { first = Some(n); } else if n != cur + 1 { return None; }
+            cur = n;
+            let t = if l.len() > w + 3 { &l[w + 3..] } else { "" };
+            shown.push(t.trim_end_matches('\r').to_string());
+        }
+    }
+    Some((first?, shown, caret))
+}
+fn err_span(e: &CompileError) -> Span { match e { CompileError::LexerError(x) => x.span, CompileError::ParserError(x) => x.span, CompileError::GeneratorError(x) => x.span } }
+/// Coq case tying the span / rendered snippet to Model/C31_Snippet.v
+fn snippet_case(report: &mut Report, text: &str, e: &CompileError, rendered: &str) -> String {
+    let sp = err_span(e);
+    let head = format!("{} {} {} {} {} {}", chars_coq(text), text.len(), sp.start.full_index, sp.start.line_idx, sp.end.full_index, sp.end.line_idx);
+    if sp.start.line_idx != sp.end.line_idx { report.count("span_multiline"); return format!("CSpan {}", head); }
+    match parse_rendered(rendered) {
+        None => { report.count("snippet_unparsed"); format!("CSpan {}", head) }
+        Some((first, shown, caret)) => {
+            report.count("snippet_parsed");
+            // caret columns are display columns (the renderer gives a tab width 0, wide characters 2): compare only when the annotated line is printable ASCII
+            let ann = shown.get((sp.start.line_idx as u64 + 1).saturating_sub(first) as usize);
+            let ascii = ann.map(|l| l.chars().all(|c| (' '..='~').contains(&c))).unwrap_or(false);
+            let caret = match caret { Some(c) if ascii => { report.count("snippet_caret_compared"); format!("(Some ({}, {}, {}))", c.0, c.1, c.2) } Some(_) => { report.count("snippet_caret_non_ascii_line"); "None".to_string() } None => { report.count("snippet_no_caret"); "None".to_string() } };
+            format!("CSnippet {} {} {} {}", head, first, coq_list(shown.iter().map(|l| chars_coq(l))), caret)
+        }
+    }
+}
+#[derive(Clone, Debug)]
+enum VOp { NewBucket, DropBucket(u32), NewProof(Option<u32>), CloneProof(u32), DropProof(u32), DropAll }
+fn vop_coq(o: &VOp) -> String { match o { VOp::NewBucket => "NewBucket".into(), VOp::DropBucket(b) => format!("(DropBucket {})", b), VOp::NewProof(Some(b)) => format!("(NewProof (Some {}))", b), VOp::NewProof(None) => "(NewProof None)".into(), VOp::CloneProof(p) => format!("(CloneProof {})", p), VOp::DropProof(p) => format!("(DropProof {})", p), VOp::DropAll => "DropAllNamed".into() } }
+/// real BasicManifestValidator: outcome of every call up to the first error
+fn run_idv(ops: &[VOp]) -> Vec<String> {
+    let mut v = BasicManifestValidator::new(); let mut out = vec![];
+    for o in ops {
+        let r: Result<Option<u32>, ()> = match o {
+            VOp::NewBucket => Ok(Some(v.new_bucket().0)),
+            VOp::DropBucket(b) => v.drop_bucket(&ManifestBucket(*b)).map(|_| None).map_err(|_| ()),
+            VOp::NewProof(k) => v.new_proof(match k { Some(b) => ProofKind::BucketProof(ManifestBucket(*b)), None => ProofKind::AuthZoneProof }).map(|p| Some(p.0)).map_err(|_| ()),
+            VOp::CloneProof(p) => v.clone_proof(&ManifestProof(*p)).map(|p| Some(p.0)).map_err(|_| ()),
+            VOp::DropProof(p) => v.drop_proof(&ManifestProof(*p)).map(|_| None).map_err(|_| ()),
+            VOp::DropAll => v.drop_all_named_proofs().map(|_| None).map_err(|_| ()),
+        };
+        match r { Ok(id) => out.push(format!("(OOk {})", match id { Some(x) => format!("(Some {})", x), None => "None".to_string() })), Err(_) => { out.push("OErr".to_string()); break; } }
+    }
+    out
+}
+/// boundary sequences for the id validator (identical for every seed)
+fn fam_idv() -> Vec<(String, Vec<VOp>)> {
+    use VOp::*;
+    vec![
+        ("idv_drop_bucket_unlocked", vec![NewBucket, DropBucket(0), DropBucket(0)]),
+        ("idv_drop_bucket_locked", vec![NewBucket, NewProof(Some(0)), DropBucket(0)]),
+        ("idv_lock_unlock_drop", vec![NewBucket, NewProof(Some(0)), DropProof(0), DropBucket(0)]),
+        ("idv_clone_keeps_lock", vec![NewBucket, NewProof(Some(0)), CloneProof(0), DropProof(0), DropBucket(0)]),
+        ("idv_clone_both_dropped", vec![NewBucket, NewProof(Some(0)), CloneProof(0), DropProof(0), DropProof(1), DropBucket(0)]),
+        ("idv_clone_of_clone", vec![NewBucket, NewProof(Some(0)), CloneProof(0), CloneProof(1), DropProof(1), DropProof(0), DropProof(2), DropBucket(0)]),
+        ("idv_drop_all_unlocks", vec![NewBucket, NewBucket, NewProof(Some(0)), NewProof(Some(1)), CloneProof(1), NewProof(None), DropAll, DropBucket(1), DropBucket(0), DropAll]),
+        ("idv_drop_all_empty", vec![DropAll, NewBucket, DropAll, DropBucket(0)]),
+        ("idv_proof_of_missing_bucket", vec![NewProof(Some(0))]),
+        ("idv_proof_of_dropped_bucket", vec![NewBucket, DropBucket(0), NewProof(Some(0))]),
+        ("idv_clone_missing_proof", vec![NewBucket, CloneProof(0)]),
+        ("idv_drop_proof_twice", vec![NewBucket, NewProof(Some(0)), DropProof(0), DropProof(0)]),
+        ("idv_clone_dropped_proof", vec![NewBucket, NewProof(Some(0)), DropProof(0), CloneProof(0)]),
+        ("idv_authzone_proofs", vec![NewProof(None), CloneProof(0), DropProof(0), DropProof(1), DropProof(1)]),
+        ("idv_two_buckets_independent", vec![NewBucket, NewBucket, NewProof(Some(1)), DropBucket(0), DropBucket(1)]),
+        ("idv_ids_not_reused", vec![NewBucket, DropBucket(0), NewBucket, NewProof(Some(1)), DropProof(0), NewProof(Some(1)), DropProof(1), DropBucket(1)]),
+    ].into_iter().map(|(c, o)| (c.to_string(), o)).collect()
+}
 /// texts for the compile + diagnostics oracle: error on lines 1..8 (the snippet context window switches at line 6),
 /// at end of input with / without final newline, after multi-byte characters, each with LF, CRLF and CR
 fn fam_edge() -> Vec<(String, String)> {
@@ -143,6 +235,9 @@ fn fam_edge() -> Vec<(String, String)> {
         ("edge_multibyte_last_char", "DROP_ALL_PROOFS; é"), ("edge_multibyte_in_string_eof", "CALL_METHOD \"é"), ("edge_non_bmp_last_char", "DROP_ALL_PROOFS;😀"),
         ("edge_eq_then_multibyte", "=é"), ("edge_eq_eof", "="), ("edge_minus_eof", "-"), ("edge_digit_eof", "1"), ("edge_digit_multibyte", "1é"), ("edge_escape_u_multibyte", "\"\\ué\""),
         ("edge_surrogate_then_multibyte", "\"\\ud800é\""), ("edge_string_trailing_newline", "\"abc\n"), ("edge_string_trailing_crlf", "\"abc\r\n"), ("edge_tab_indent_error", "\t\t@"),
+        ("edge_multiline_span_values", "DROP_ALL_PROOFS;\nCALL_METHOD Address(\"a\",\n\"b\"\n) \"m\";\n"), ("edge_multiline_span_values_crlf", "DROP_ALL_PROOFS;\r\nCALL_METHOD Decimal(\r\n\"1\",\r\n\"2\") \"m\";\r\n"),
+        ("edge_multiline_span_types", "CALL_METHOD Address(\"x\") \"m\" Map<U8,\nU8,\nU8>();"), ("edge_multiline_span_generator", "CALL_METHOD\nAddress(\n\"x\"\n) \"m\";"),
+        ("edge_multiline_span_lines_6_to_8", &("DROP_ALL_PROOFS;\n".repeat(5) + "CALL_METHOD Address(\"a\",\n\"b\",\n\"c\") \"m\";\nDROP_ALL_PROOFS;\n")),
         ("edge_nesting_20", &("Tuple(".repeat(20) + &")".repeat(20))), ("edge_nesting_21", &("Tuple(".repeat(21) + &")".repeat(21)))] { v.push((c.to_string(), t.to_string())); }
     v
 }
@@ -210,12 +305,13 @@ fn main() {
          200) and LF/CRLF/CR/mixed line endings, plus arbitrary strings; compiled as V1, SystemV1, V2, SubintentV2 twice + diagnostics in both styles under \
          catch_unwind. stream B (model): string-literal texts vs lexer. non-trivial = mutated template or a string literal with an escape",
     );
-    let mut cw = CaseWriter::new("RV.Corr.C31_run RV.Model.C30_Text RV.Model.C31_Lexer RV.Model.C30_Value RV.Model.C31_Parser", "check");
+    let mut cw = CaseWriter::new("RV.Corr.C31_run RV.Model.C30_Text RV.Model.C31_Lexer RV.Model.C30_Value RV.Model.C31_Parser RV.Model.C31_Snippet RV.Model.C31_IdValidator", "check");
     let root = Rng::new(args.seed);
     let net = NetworkDefinition::simulator();
     let temps = templates();
     let kinds = [ManifestKind::V1, ManifestKind::SystemV1, ManifestKind::V2, ManifestKind::SubintentV2];
-    let (fedge, flex, fstr) = (fam_edge(), fam_lex(), fam_str());
+    let (fedge, flex, fstr, fidv) = (fam_edge(), fam_lex(), fam_str(), fam_idv());
+    let mut idv_ix = 0usize;
     let fam_len = fedge.len() + flex.len() + fstr.len();
     let (mut lex_ix, mut str_ix) = (0usize, 0usize);
     let mut fam_classes: Vec<String> = vec![];
@@ -260,7 +356,8 @@ fn main() {
                             let crlf = text.contains('\r');
                             match (&d1, &d2) {
                                 (Err(p), _) | (_, Err(p)) => { report.count("diagnostics_panic"); report.oracle_failure(i, if crlf { "diagnostics-cr" } else { "" }, &format!("compile_error_diagnostics panicked: {}", p), json!({"text": text, "kind": kind_name(kind), "error": format!("{:?}", e)})); }
-                                (Ok(a), Ok(b)) => { report.count("diagnostics_rendered"); if a != b { report.oracle_failure(i, "", "diagnostics not deterministic", input.clone()); } }
+                                (Ok(a), Ok(b)) => { report.count("diagnostics_rendered"); if a != b { report.oracle_failure(i, "", "diagnostics not deterministic", input.clone()); }
+                                    if matches!(kind, ManifestKind::V1) && matches!(style, CompileErrorDiagnosticsStyle::PlainText) && text.chars().count() <= 6000 { let c = snippet_case(&mut report, &text, &e, a); cw.push(c); } }
                             }
                         }
                     }
@@ -329,6 +426,37 @@ fn main() {
                 }
             };
             cw.push(format!("CString {} {}", chars_coq(&lit), out));
+            // ---- id validator: one op sequence per string case ----
+            let ops: Vec<VOp> = if let Some((c, o)) = fidv.get(idv_ix) { idv_ix += 1; report.count(c); fam_classes.push(c.clone()); o.clone() } else {
+                let n = rng.range(1, 14); let (mut nb, mut np) = (0u32, 0u32); let mut v = vec![];
+                // half of the sequences are valid by construction (live buckets with lock counts, live proofs), the rest free
+                let valid = rng.bool();
+                let mut live_b: Vec<(u32, u32)> = vec![]; let mut live_p: Vec<(u32, Option<u32>)> = vec![];
+                for _ in 0..n {
+                    if valid {
+                        let unlocked: Vec<u32> = live_b.iter().filter(|x| x.1 == 0).map(|x| x.0).collect();
+                        let choice = rng.below(12);
+                        if choice <= 2 || live_b.is_empty() && choice <= 8 { live_b.push((nb, 0)); nb += 1; v.push(VOp::NewBucket); }
+                        else if choice == 3 && !unlocked.is_empty() { let b = *rng.pick(&unlocked); live_b.retain(|x| x.0 != b); v.push(VOp::DropBucket(b)); }
+                        else if choice <= 5 && !live_b.is_empty() { let k = rng.usize_below(live_b.len()); live_b[k].1 += 1; live_p.push((np, Some(live_b[k].0))); np += 1; v.push(VOp::NewProof(Some(live_b[k].0))); }
+                        else if choice == 6 { live_p.push((np, None)); np += 1; v.push(VOp::NewProof(None)); }
+                        else if choice <= 8 && !live_p.is_empty() { let (p, k) = *rng.pick(&live_p); if let Some(b) = k { for x in live_b.iter_mut() { if x.0 == b { x.1 += 1; } } } live_p.push((np, k)); np += 1; v.push(VOp::CloneProof(p)); }
+                        else if choice <= 10 && !live_p.is_empty() { let i = rng.usize_below(live_p.len()); let (p, k) = live_p.remove(i); if let Some(b) = k { for x in live_b.iter_mut() { if x.0 == b { x.1 -= 1; } } } v.push(VOp::DropProof(p)); }
+                        else { live_p.clear(); for x in live_b.iter_mut() { x.1 = 0; } v.push(VOp::DropAll); }
+                        continue;
+                    }
+                    let b = if nb > 0 && rng.chance(9, 10) { rng.below(nb as u64) as u32 } else { rng.below(3) as u32 };
+                    let p = if np > 0 && rng.chance(9, 10) { rng.below(np as u64) as u32 } else { rng.below(3) as u32 };
+                    v.push(match rng.below(12) { 0..=2 => { nb += 1; VOp::NewBucket } 3 => VOp::DropBucket(b), 4..=5 => { np += 1; VOp::NewProof(Some(b)) } 6 => { np += 1; VOp::NewProof(None) } 7..=8 => { np += 1; VOp::CloneProof(p) } 9..=10 => VOp::DropProof(p), _ => VOp::DropAll });
+                }
+                v
+            };
+            let o2 = ops.clone();
+            let out = match catch(move || run_idv(&o2)) {
+                Err(p) => { report.oracle_failure(i, "", &format!("BasicManifestValidator panicked: {}", p), json!({"ops": format!("{:?}", ops)})); vec!["OPanic".to_string()] }
+                Ok(o) => { report.count(if o.last().map(|x| x == "OErr").unwrap_or(false) { "idv_err" } else { "idv_ok" }); o }
+            };
+            cw.push(format!("CIdv {} {}", coq_list(ops.iter().map(vop_coq)), coq_list(out.into_iter())));
         }
     }
     for c in &fam_classes { report.floor(c, 1); }
@@ -344,6 +472,11 @@ fn main() {
     report.floor("parse_ok", n / 60);
     report.floor("parse_err", n / 60);
     report.floor("lex_err", n / 60);
+    report.floor("snippet_parsed", n / 10);
+    report.floor("snippet_caret_compared", n / 20);
+    report.floor("span_multiline", 1);
+    report.floor("idv_ok", n / 60);
+    report.floor("idv_err", n / 60);
     cw.write(&args.out, args.shards).unwrap();
     report.write(&args.out).unwrap();
 }
